@@ -13,6 +13,8 @@ M = "protocol.ws_stream"
 
 
 def run(ctx: Ctx) -> None:
+    if getattr(ctx, "_depth", 0) >= 2:
+        return  # alias of an alias: not followed (breaks import cycles between rule modules)
     repo = ctx.repo
     ctx.rule("C10.R1", "a finished message is delivered once (put(buffer.to_message())) and the buffer cleared before anything else is accumulated; unfinished fragments only accumulate", floor=3)
     ctx.rule("C10.R2", "overflow: FrameTooLargeError -> CloseConnection(MESSAGE_TOO_BIG), leave the event loop, deliver nothing; the buffer stays over its limit (later fragments overflow again) unless the stream is marked closed", floor=4)
@@ -97,6 +99,7 @@ def run(ctx: Ctx) -> None:
         ("an empty message is still a message of its type", 0, [("extend", T("")), ("to_message", {"type": "websocket.receive", "bytes": None, "text": ""})]),
         ("the type is chosen per message (text, clear, binary)", 9, [("extend", T("a")), ("clear", None), ("extend", B(b"b")), ("to_message", {"type": "websocket.receive", "bytes": b"b", "text": None})]),
         ("sizes accumulate over fragments", 3, [("extend", B(b"ab")), ("extend!", B(b"cd"))]),
+        ("the limit is latched: once a fragment was refused every later fragment of the read is refused too", 3, [("extend", B(b"ab")), ("extend!", B(b"cd")), ("extend!", B(b"e"))]),
     ]
     for title, mx, steps in scenarios:
         why = ""
@@ -112,7 +115,7 @@ def run(ctx: Ctx) -> None:
                         raised = "FrameTooLargeError" in str(r_)
                         if not raised:
                             raise
-                        out_ = {}
+                        out_ = getattr(r_, "env", {})
                     if raised != (op == "extend!"):
                         why = f"extend({arg_}) {'raised' if raised else 'did not raise'} FrameTooLargeError"
                         break
@@ -131,7 +134,7 @@ def run(ctx: Ctx) -> None:
                         break
         except Exception as error:
             why = f"not evaluable: {type(error).__name__}: {error}"
-        rid = "C10.R3" if "limit" in title or "max size" in title or "accumulate" in title else "C10.R4"
+        rid = "C10.R3" if "limit" in title or "max size" in title or "accumulate" in title or "latched" in title else "C10.R4"
         ctx.check(rid, f"{M}:WebsocketBuffer", title, not why, why, ex)
     wsi = repo.func(M, "WSStream.__init__")
     ok = any(isinstance(n, ast.Assign) and dotted(n.targets[0]) == "self.buffer" and call_name(n.value) == "WebsocketBuffer" for n in walk_local(wsi) if isinstance(getattr(n, "value", None), ast.Call))
